@@ -164,6 +164,37 @@ CHECKS["C12"] = dict(
     engine="tlc+replay+ort",
 )
 
+CHECKS["C15"] = dict(
+    built=True,
+    category="model_checking",
+    technique="TLA+ spec J2O_FileModes (file + sidecar state under sequences of exports to one path) checked by TLC; every sequence executed on the real file system and compared across return modes",
+    text=(
+        "J2O_FileModes models the .onnx file and its .data sidecar under all sequences of up to 3 (quick) / 4 (thorough) exports to one path over {standard, web} x "
+        "{4.8 kB, exactly 1 MiB, 1.2 MB parameters}; TLC checks LoadIsLastExport, WebSelfContained, StaleNeverReferenced. Every sequence is executed with the real to_onnx in a scratch "
+        "directory; after every step the file is reloaded (with external data) and compared with return_mode='proto' and 'ir' of the same request: graph (modulo data location), "
+        "parameter bytes, ORT outputs, the mathematically expected result of THIS export (a stale sidecar would compute an earlier one), web = exactly one self-contained file, "
+        "external-data / sidecar state as the specification predicts."
+    ),
+    note="Trusted: onnx.load external-data resolution, ORT, TLC. Each export in a sequence uses distinct parameter values so stale bytes are observable.",
+    design_ref="DESIGN.md §3 C15",
+    engine="tlc+replay(fs)",
+)
+CHECKS["C07"] = dict(
+    built=True,
+    category="model_checking",
+    technique="TLA+ spec J2O_FnDedup (registry keys vs function semantics over sequences of call sites, both modes) checked by TLC; every emitted configuration instantiated with real @onnx_function targets and compared decorated vs undecorated vs JAX in ORT",
+    text=(
+        "J2O_FnDedup processes sequences of call sites (object identity, instance table twin / other weights / other static config, keyword argument none / two static values / traced / "
+        "call-time parameter, two shapes, two dtypes) through the registry in shared and unique mode; TLC checks DedupSound, CallArity, DistinctWhenDifferent over 14.6k (quick) / 780k (thorough) "
+        "states and rejects the deviation spec (identity reuse, mutation between calls). Emitted configurations are instantiated with real decorated targets - plain class, nnx.Module, "
+        "nnx.Module with weights in a nested sub-module, eqx.Module with a static field, free function - and exported: per call site ORT(decorated) = ORT(undecorated twin) = JAX, "
+        "#definitions >= #distinct functions, call-node arity and domain import match the definition."
+    ),
+    note="Trusted: JAX eager on undecorated twin classes, ORT, TLC. Identity reuse of collected temporaries and mutation between calls are modelled as named deviations, not exercised on the real code.",
+    design_ref="DESIGN.md §3 C07",
+    engine="tlc+replay",
+)
+
 TITLES = {}
 for line in (VERIF / "properties.jsonl").read_text().splitlines():
     if line.strip():
